@@ -137,12 +137,14 @@ let handle (line : string) : string =
       let fs = ids_of t (fun () -> (!st).ms_cache) in
       ignore (ev (ECacheEvict fs)); "E ok"
   | "O" :: cid :: lo :: hi :: _ ->
-      (* before the step: do the hypotheses of the stability theorem hold here (scan_wfb + fuel),
-         and is the composed specification the contents-based one? *)
+      (* before the step: do the hypotheses of the stability theorems hold here (open_wfb: scan_wfb + fuel;
+         open_tsb: nothing in the store is newer than the sequence numbers handed out), and is the
+         composed specification the contents-based one? *)
       let l = parse_bound lo and h = parse_bound hi in
       let wf = open_wfb !cfg !st l h in
       let same = (open_list !st l h = scan_spec !st l h) in
-      let tail = Printf.sprintf " wf=%d eq=%d" (if wf then 1 else 0) (if same then 1 else 0) in
+      let ts = open_tsb !st in
+      let tail = Printf.sprintf " wf=%d eq=%d ts=%d" (if wf then 1 else 0) (if same then 1 else 0) (if ts then 1 else 0) in
       (match ev (EOpen (n_of_dec cid, l, h)) with
        | OErr e -> "O " ^ show_err e ^ tail
        | OObs o -> "O " ^ show_obs o ^ tail
